@@ -1303,9 +1303,24 @@ Proof.
     apply filter_loop; [assumption | apply Hb | apply xequiv_refl]. }
   cbn [rw_filter] in H. destruct (filter_shape body) as [[[c s1] neg]|] eqn:Hsh; [|discriminate].
   destruct (filter_test x c) as [f|] eqn:Hft; [|discriminate].
-  destruct (simple_stmt s1); [|discriminate]. injection H as <-.
+  injection H as <-.
   rewrite (filter_shape_inv _ _ _ _ Hsh). apply (Hcore c f s1 neg Hft).
 Qed.
+
+(* 295ec41 (the template back end indents compound statements): the rule no longer stays silent on
+   compound body statements; the old model was the restriction of the new one, sound a fortiori *)
+Lemma filter_old_sub : forall s s', rw_filter_old s = Some s' -> rw_filter s = Some s'.
+Proof.
+  intros s s' H. destruct s; try discriminate. cbn [rw_filter_old] in H.
+  destruct (filter_shape body) as [[[c s1] neg]|]; [|discriminate].
+  destruct (simple_stmt s1); [exact H | discriminate].
+Qed.
+
+Example filter_compound_body :
+  let s := SFor (TName 1) (IPlain (EName 2)) [SIf (EName 1) [SIf (EName 1) [SExpr (ECall 0 [])] []] []] in
+  rw_filter s = Some (SFor (TName 1) (IFilter None (EName 2)) [SIf (EName 1) [SExpr (ECall 0 [])] []])
+  /\ rw_filter_old s = None.
+Proof. split; reflexivity. Qed.
 
 (* full equality fails: the loop variable after the loop (F02-47) *)
 Theorem filter_refuted_loop_variable :
